@@ -285,10 +285,23 @@ func (s *clientSocket) finishUpgradeTo(t ClientTransport, c *transport.Callbacks
 		return
 	}
 
-	c.Set(s.onPacket, s.onTransportClose)
-
 	s.transportMu.Lock()
 	defer s.transportMu.Unlock()
+
+	// The server uses the new transport as soon as it receives the UPGRADE packet, and a poll
+	// request can still be in flight at that moment. These are two connections: the packets
+	// of the new transport can arrive before the response to that poll request does, although
+	// the server sent them later. They are held back until polling has ended.
+	var pollingDone <-chan struct{}
+	if d, ok := s.transport.(interface{ Done() <-chan struct{} }); ok {
+		pollingDone = d.Done()
+	}
+	c.Set(func(packets ...*parser.Packet) {
+		if pollingDone != nil {
+			<-pollingDone
+		}
+		s.onPacket(packets...)
+	}, s.onTransportClose)
 
 	// The socket might have been closed while the upgrade was in progress.
 	// Do not switch to the new transport. Nobody would close it, and it would
